@@ -74,17 +74,6 @@ func vC18Exported(tw *tar.Writer, buf *bytes.Buffer) []vC18Out {
 
 func vC18ExportedModel(tw *tar.Writer, buf *bytes.Buffer) []vC18Out { return vC18Outs }
 
-// file-backed mmap in the engine: the bytes of the file model
-func vC18Mmap(f *os.File, offset int64, length int) ([]byte, error) {
-	if f == nil {
-		return make([]byte, length), nil
-	}
-	b := make([]byte, length)
-	if _, err := vfsReadAt(f, b, 0); err != nil && err != io.EOF {
-		return nil, err
-	}
-	return b, nil
-}
 func vC18Munmap(b []byte) error          { return nil }
 func vC18Madvise(b []byte, adv int) error { return nil }
 
